@@ -109,14 +109,59 @@ def failure_propagated(an, cs, dty):
     """every outcome of the function reached with the call's result being Err / None is an error (or the result itself, returned unchanged)"""
     from ..streamrules import _bypass
     R = cs.result
-    leaves = an.ret_leaves()
-    if leaves is None:
-        return False, "cannot enumerate outcomes"
     vs = ["Ok", "Err"] if dty.startswith("result::Result") else ["Some", "None"]
     base, names = an.norm_var(R, vs)
     if base is None:
         return True, "statically known outcome"
-    failname = names[1]
+    failname, okname = names[1], names[0]
+
+    def is_forward(t):
+        if t is R:
+            return True
+        for cand in (["Ok", "Err"], ["Some", "None"]):
+            bx, nx = an.norm_var(t, cand)
+            if bx is base and nx[1] == failname:
+                return True
+        return False
+
+    def is_err(t):
+        return t.op == "agg" and t.args[3] == "Err"
+    ps = an.paths()
+    if ps is not None:
+        # loop-free body: every path through the call site must know how the read ended, and a failed read must end in an error
+        ps = an.expand_trees(ps)
+        if ps is None:
+            return False, "cannot enumerate outcomes"
+        through = [(t, st, [c for c in calls if c.block == cs.block][0]) for t, st, calls in ps if any(c.block == cs.block for c in calls)]
+        if not through:
+            return True, "the call is on no feasible path"
+        fail = nfwd = 0
+        for t, st, c in through:
+            # on a single path the call's result is a path-specific term
+            b2, n2 = an.norm_var(an.simp(c.result, st.facts), vs)
+            if b2 is None:
+                if n2 == 1:
+                    fail += 1
+                    if not is_err(t):
+                        return False, "an outcome reached with the read having failed returns %s" % pp(t)[:140]
+                continue
+            fwd = t is c.result or any(an.norm_var(t, cand)[0] is b2 and an.norm_var(t, cand)[1][1] == n2[1] for cand in (["Ok", "Err"], ["Some", "None"]))
+            if ("var", b2, n2[1]) in st.facts:
+                fail += 1
+                if not is_err(t) and not fwd:
+                    return False, "an outcome reached with the read having failed returns %s" % pp(t)[:140]
+            elif ("var", b2, n2[0]) in st.facts:
+                continue
+            elif fwd:
+                nfwd += 1
+            else:
+                return False, "a path through the read returns %s without its result having been examined (dropped, `.ok()`, `unwrap_or`, handed to a combinator...)" % pp(t)[:100]
+        if fail == 0 and nfwd == 0:
+            return False, "no outcome of the function is tied to the failure of this read"
+        return True, "on all %d paths through the read its failure ends in an error (or the result is forwarded)" % len(through)
+    leaves = an.ret_leaves()
+    if leaves is None:
+        return False, "cannot enumerate outcomes"
 
     def tests(d):
         if d.op != "discr":
@@ -128,14 +173,6 @@ def failure_propagated(an, cs, dty):
                 return True
         return False
     tested = [b for b, d in an.switches.items() if b in an.entry and tests(d) and an.dominates(cs.block, b)]
-    def is_forward(t):
-        if t is R:
-            return True
-        for cand in (["Ok", "Err"], ["Some", "None"]):
-            bx, nx = an.norm_var(t, cand)
-            if bx is base and nx[1] == failname:
-                return True
-        return False
     forwarded = [t for t, st in leaves if is_forward(t)]
     if not tested:
         if forwarded:
@@ -147,7 +184,7 @@ def failure_propagated(an, cs, dty):
     for t, st in leaves:
         if ("var", base, failname) in st.facts:
             fail += 1
-            if not (t.op == "agg" and t.args[3] == "Err") and not is_forward(t):
+            if not is_err(t) and not is_forward(t):
                 return False, "an outcome reached with the read having failed returns %s" % pp(t)[:140]
     if fail == 0:
         return False, "no outcome of the function is tied to the failure of this read"
